@@ -105,7 +105,14 @@ def sections(scn):
                 prog = validation[2:]
                 return [("script", bytes([0x76, 0xa9, 0x14]) + prog + bytes([0x88, 0xac]))]
             if len(validation) == 34 and validation[0] == 0x00:
-                return [("script", wit[-1])]
+                out = [("script", wit[-1])]
+                # btcdeb decides "P2SH" from the byte pattern of the script it runs, whatever the script version:
+                # the top item of the initial stack is then executed as one more section
+                if p2sh_on and is_p2sh_spk(wit[-1]) and len(wit) >= 2:
+                    if wit[-2].hex().isdigit():
+                        return None     # the tool re-reads such an item as a decimal number: not what the harness generated
+                    out += [("header", "<<< P2SH script >>>"), ("script", wit[-2])]
+                return out
             if len(validation) == 34 and validation[0] == 0x51:
                 st = list(wit)
                 if len(st) >= 2 and st[-1] and st[-1][0] == 0x50:
@@ -139,11 +146,7 @@ class Listing:
             elif kind == "header":
                 self.entries.append(("header", val, si, None))
             else:
-                try:
-                    ops = S.decode(val)
-                except ValueError:
-                    ops = []
-                for (o, op, data, ln) in ops:
+                for (o, op, data, ln) in S.decode_prefix(val):
                     self.entries.append(("op", S.listing_entry(op, data), si, o))
 
     def index_for(self, script_bytes, pc):
